@@ -9,7 +9,7 @@ flattening passes as reserved arguments.  Substitution semantics of bodies is NO
 import ast
 
 from ..model import AnalysisError, src, callee_name, dotted, walk_local, calls_in, FUNC, names_in, pos
-from ..flow import Sem, path_conditions, split_conj
+from ..flow import Sem, path_conditions, split_conj, atoms_at
 from ..callgraph import CallGraph
 from ..common import resolve_single_assign, ancestors, in_loop
 from ..selftest import Seed
@@ -144,6 +144,7 @@ def check(ctx):
 
     _check_eval_fn(ctx, repo)
     _check_cond(ctx, repo)
+    _check_param_store(ctx, repo)
     # ---------------- R6: projection flattening and call evaluation do not write into shared structures
     ctx.rule("C03-R6", "projection flattening never writes into the stored projection layers (FRESH-WRITE on types.py and the call path), and call() evaluates every function node through a fresh wrapper")
     from .. import fresh
@@ -152,6 +153,37 @@ def check(ctx):
     n, _seen = c04.fresh_write_scan(ctx, repo, cg, summ, "C03-R6", ("types",), ("interpreter:KlongInterpreter._eval_fn", "interpreter:KlongInterpreter._resolve_fn"))
     ctx.floor("C03-R6", "in-place writes in the projection/call path", n, 3)
     c05.check_rewrap(ctx, repo, "C03-R6")
+
+
+def _check_param_store(ctx, repo):
+    """C03-R7: parameters are private to the call that bound them.  A store to x / y / z must land in the innermost frame; only
+    other names may be looked for (and overwritten) in enclosing scopes."""
+    ctx.rule("C03-R7", "a store to a parameter name (x, y, z) never walks the scope stack: in KlongContext.__setitem__ every store into a scope other than the innermost one is dominated by `k not in reserved_fn_symbols`")
+    f = repo.fn("interpreter:KlongContext.__setitem__")
+    ctx.instance("C03-R7", f.fq)
+    kparam = f.params()[1]
+    walks = []
+    for lp in [n for n in walk_local(f.node) if isinstance(n, ast.For) and dotted(lp_iter(n)) == "self._context"]:
+        dvars = {x.id for x in ast.walk(lp.target) if isinstance(x, ast.Name)}
+        for n in walk_local(lp):
+            if isinstance(n, ast.Subscript) and isinstance(n.ctx, (ast.Store, ast.Del)) and isinstance(n.value, ast.Name) and n.value.id in dvars:
+                walks.append(n)
+            if isinstance(n, ast.Call) and callee_name(n) == "set_context_var" and n.args and isinstance(n.args[0], ast.Name) and n.args[0].id in dvars:
+                walks.append(n)
+    ctx.floor("C03-R7", "stores into an enclosing scope found by walking the scope stack", len(walks), 1)
+    for n in walks:
+        facts = atoms_at(n, f.node)
+        ok = any(isinstance(e, ast.Compare) and len(e.ops) == 1 and src(e.left) == kparam and "reserved_fn_symbols" in src(e.comparators[0]) and
+                 ((isinstance(e.ops[0], ast.NotIn) and pol) or (isinstance(e.ops[0], ast.In) and not pol)) for e, pol in facts)
+        ctx.ob("C03-R7", f.fq, f"the scope-walking store `{src(n)[:40]}` happens only for names that are not parameter names", ok, node=n, construct="scope walk for a parameter name",
+               msg="a store to x, y or z searches the enclosing scopes first: a callee that assigns to a parameter name it did not receive overwrites its CALLER's argument (or a global of that name) instead of creating its own")
+
+
+def lp_iter(loop):
+    it = loop.iter
+    while isinstance(it, ast.Call) and it.args and callee_name(it) in ("reversed", "list", "iter", "enumerate"):
+        it = it.args[0]
+    return it
 
 
 def _check_eval_fn(ctx, repo):
@@ -193,7 +225,16 @@ def _check_eval_fn(ctx, repo):
                 ctx.ob("C03-R3", f.fq, "the only evaluation after the push is that of the function body", isinstance(a0, ast.Name) and a0.id == body_var,
                        node=n, construct=f"evaluation after push: {src(n)[:60]}", msg="an argument expression is evaluated after the callee frame was pushed: it sees the callee's x/y/z instead of the caller's")
             else:
-                ctx.ob("C03-R3", f.fq, "argument evaluation happens before the push", True, node=n, construct=f"evaluation before push: {src(n)[:60]}")
+                a0 = n.args[0] if n.args else None
+                is_body = isinstance(a0, ast.Name) and a0.id == body_var
+                ctx.ob("C03-R3", f.fq, "what is evaluated before the push is an argument, never the function body", not is_body, node=n,
+                       construct=("function body evaluated without its own frame" if is_body else f"evaluation before push: {src(n)[:60]}"),
+                       msg="the function body is evaluated on a path that has not pushed a frame for it: names it creates land in the caller's scope (or become globals) and survive the call, "
+                           ".f is not bound, and a failure part-way leaves those names behind")
+        # the callable form of the body (a Python function stored in a variable) is likewise only applied inside the frame
+        if isinstance(n, ast.Call) and isinstance(n.func, ast.Name) and n.func.id == body_var and npos < pline:
+            ctx.ob("C03-R3", f.fq, "the function is applied only after its frame was pushed", False, node=n, construct="function applied without its own frame",
+                   msg="the function is applied on a path that has not pushed a frame for it")
     # the push is immediately followed by the try/finally that pops (no statement in between can raise)
     st = push
     while not isinstance(st, ast.stmt):
@@ -344,6 +385,10 @@ MUTATION_SCOPE = ['interpreter:KlongInterpreter._eval_fn',
                   'types:merge_projections']
 
 SEEDS = [
+    Seed("nilad-fast-path-without-frame", "fault", "interpreter", "        ctx[reserved_dot_f_symbol] = f\n\n        self._context.push(ctx)",
+         "        if not ctx and not issubclass(type(f), KGLambda):\n            return self.call(f)\n\n        ctx[reserved_dot_f_symbol] = f\n\n        self._context.push(ctx)", rule="C03-R3"),
+    Seed("parameter-store-walks-scopes", "fault", "interpreter", "        if k not in reserved_fn_symbols:\n            # Check if variable exists in any scope\n            for d in self._context:",
+         "        if True:\n            # Check if variable exists in any scope\n            for d in self._context:", rule="C03-R7"),
     Seed("pop-after-try", "fault", "interpreter",
          "        try:\n            return f(self, self._context) if issubclass(type(f), KGLambda) else self.call(f)\n        finally:\n            self._context.pop()",
          "        r = f(self, self._context) if issubclass(type(f), KGLambda) else self.call(f)\n        self._context.pop()\n        return r", rule="C03-R1"),
